@@ -82,3 +82,44 @@ Theorem C08_source_reader_constraint : forall w fi v fuel fuel', (aval_depth v <
   end.
 Proof. exact src_glencoe_parse_ctc. Qed.
 Print Assumptions C08_source_reader_constraint.
+
+(* ---- the whole READER about the translated source (GlencoeReader.transform with the loaded document as input,
+   _parse_tree, _parse_constraints; Gen/Src_glencoer.v): what the model reads, the code reads.  On documents the
+   model rejects the code fails too provided every "optional" entry is a JSON boolean — the model is stricter than
+   the code there (the code takes the truth value of whatever the entry is: C08_source_reader_error_needs_boolean;
+   the writer only ever writes booleans) ---- *)
+Theorem C08_source_reader : forall w doc pm, glencoe_read doc = Ok pm ->
+  exists n0, forall fuel, (n0 <= fuel)%nat -> py_GlencoeReader_transform fuel w doc = Ok (erase_fm pm).
+Proof. exact src_glencoe_read. Qed.
+Print Assumptions C08_source_reader.
+
+Theorem C08_source_reader_error : forall w doc e, gl_doc_optional_bool doc -> glencoe_read doc = Err e ->
+  exists n0, forall fuel, (n0 <= fuel)%nat -> exists e', py_GlencoeReader_transform fuel w doc = Err e'.
+Proof. exact src_glencoe_read_error. Qed.
+Print Assumptions C08_source_reader_error.
+
+Theorem C08_source_reader_library_error : forall w doc, gl_doc_optional_bool doc ->
+  glencoe_read doc = Err FlamaException ->
+  exists n0, forall fuel, (n0 <= fuel)%nat -> py_GlencoeReader_transform fuel w doc = Err FlamaException.
+Proof. exact src_glencoe_read_library_error. Qed.
+Print Assumptions C08_source_reader_library_error.
+
+Theorem C08_source_reader_error_needs_boolean :
+  ~ (forall w doc e, glencoe_read doc = Err e ->
+       exists n0, forall fuel, (n0 <= fuel)%nat -> exists e', py_GlencoeReader_transform fuel w doc = Err e').
+Proof. exact src_glencoe_read_error_false. Qed.
+Print Assumptions C08_source_reader_error_needs_boolean.
+
+(* the whole cycle on the translated source: the translated writer, then the translated reader, give the normal
+   form of the model back (and C08_norm_* say the normal form only re-orders) *)
+Theorem C08_source_cycle : forall w m, NoDup (names (root m)) -> glencoe_ok m = true ->
+  exists d n0, forall fuel, (n0 <= fuel)%nat ->
+    py__to_json fuel m = Ok d /\ py_GlencoeReader_transform fuel w d = Ok (glencoe_norm m).
+Proof.
+  intros w m Hn Hok. destruct (glencoe_roundtrip m Hok) as (d & pm & Hw & Hr & He).
+  destruct (src_glencoe_read w d pm Hr) as (n1 & Hn1).
+  exists d, (Nat.max (fuel_model m) n1). intros fuel Hf. split.
+  - rewrite src_glencoe_to_json; [exact Hw| |exact Hn]. eapply Nat.le_trans; [apply Nat.le_max_l|exact Hf].
+  - rewrite Hn1; [now rewrite He|]. eapply Nat.le_trans; [apply Nat.le_max_r|exact Hf].
+Qed.
+Print Assumptions C08_source_cycle.
